@@ -136,7 +136,7 @@ def run(ctx):
         ok = True
         for name, t in chain:
             before = snap_formula(F)
-            if len(before['clauses']) > 400 or before['numvar'] > 60:   # (long chains use size-preserving steps)
+            if len(before['clauses']) > 400 or before['numvar'] > 60 or max([len(c) for c in before['clauses']] + [0]) > 7:   # a substitution costs 2^width per clause (long chains use size-preserving steps)
                 ok = False
                 break
             st = random.getstate()
